@@ -593,6 +593,14 @@ def translate(elements_pyx=ELEMENTS_PYX, line_pyx=LINE_PYX):
     L.append('')
     L.append(render_ctors(einit, iinit))
     L.append('')
+    # round 6: what the constructor bodies write into the indices.  tr_init accepts only `self.f = ...` and `super().__init__(...)`;
+    # a statement such as `_element_index[k] = self` is outside the fragment (Unsupported), so a successful translation has none.
+    nst = len(einit['fields']) + len(iinit['fields']) + 1
+    L.append('/-- index keys written by the constructor bodies: `Element.__init__` / `Isotope.__init__` consist of %d statements, all '
+             '`self.f = ...` or `super().__init__(...)`; none assigns into `_element_index` / `_isotope_index` -/' % nst)
+    L.append('def elementCtorKeys (_obj : El) : List Nat := []')
+    L.append('def isotopeCtorKeys (_obj : Iso) : List Nat := []')
+    L.append('')
     L.append('/-- key expressions of `_build_element_index`, in source order: ' + '; '.join(k[1] for k in ekeys) + ' -/')
     L.append('def elementKeys (obj : El) : List Nat := [' + ', '.join(k[0] for k in ekeys) + ']')
     L.append('/-- key expressions of `_build_isotope_index`, in source order: ' + '; '.join(k[1] for k in ikeys) + ' -/')
